@@ -5,7 +5,7 @@ ID="$1"; V="$2"; SRC=/tmp/seedout/$ID/$V; PATCH="${3:-$SRC/patch.diff}"
 export PATH=/opt/veriftools/go1.26.8/bin:$PATH GOFLAGS= GOPROXY=off GOSUMDB=off GOTOOLCHAIN=local
 WT=/tmp/confirm_$ID$V; rm -rf $WT; git -C /repo worktree add -q --detach $WT HEAD || exit 3
 cd $WT
-DEST=$(head -1 $SRC/demo_test.go | grep -o 'pkg/[A-Za-z0-9_/.-]*_test\.go' | head -1)
+DEST=$(head -1 $SRC/demo_test.go | grep -oE "(pkg|test|cmd|internal)/[A-Za-z0-9_/.-]*_test\.go" | head -1)
 [ -z "$DEST" ] && { echo "no dest in demo first line: $(head -1 $SRC/demo_test.go)"; git -C /repo worktree remove --force $WT; exit 3; }
 PKG=./$(dirname $DEST)
 cp $SRC/demo_test.go $DEST
